@@ -510,6 +510,7 @@ impl DtlsInner {
                     self.vemit("rec", serde_json::json!({"ctype": record.content_type as u8, "epoch": record.epoch, "rseq": record.sequence_number, "ok": true, "len": payload.len()}));
                     self.handle_decrypted_record(
                         record.content_type,
+                        record.epoch > 0,
                         payload,
                         ctx,
                         incoming_data_tx,
@@ -603,15 +604,34 @@ impl DtlsInner {
         }
     }
 
+    /// `authenticated` is true when the record was protected (epoch > 0) and
+    /// opened under the negotiated keys; epoch-0 records are plaintext that
+    /// anybody on (or off) the path can forge.
     async fn handle_decrypted_record(
         &self,
         content_type: ContentType,
+        authenticated: bool,
         payload: Bytes,
         ctx: &mut HandshakeContext,
         incoming_data_tx: &mpsc::UnboundedSender<Bytes>,
         certificate: &Certificate,
         is_client: bool,
     ) -> Result<()> {
+        // Application data is never valid in the plaintext epoch, and once the
+        // keys are negotiated an alert must arrive protected to be honoured.
+        if !authenticated {
+            match content_type {
+                ContentType::ApplicationData => {
+                    debug!("Dropping plaintext (epoch 0) ApplicationData record");
+                    return Ok(());
+                }
+                ContentType::Alert if ctx.session_keys.is_some() => {
+                    debug!("Ignoring plaintext (epoch 0) Alert after key negotiation");
+                    return Ok(());
+                }
+                _ => {}
+            }
+        }
         match content_type {
             ContentType::ChangeCipherSpec => {
                 trace!(
@@ -625,7 +645,7 @@ impl DtlsInner {
                 let _ = incoming_data_tx.send(payload);
             }
             ContentType::Handshake => {
-                self.process_handshake_payload(payload, ctx, certificate, is_client)
+                self.process_handshake_payload(payload, authenticated, ctx, certificate, is_client)
                     .await?;
             }
             ContentType::Alert => {
@@ -649,6 +669,7 @@ impl DtlsInner {
     async fn process_handshake_payload(
         &self,
         mut body: Bytes,
+        authenticated: bool,
         ctx: &mut HandshakeContext,
         certificate: &Certificate,
         is_client: bool,
@@ -660,6 +681,22 @@ impl DtlsInner {
                 Ok(Some(msg)) => {
                     let consumed = msg_buf.len() - body.len();
                     let raw_msg = msg_buf.slice(0..consumed);
+
+                    // Once the keys are negotiated the only handshake message still
+                    // expected is Finished, which is sent protected. A plaintext
+                    // (epoch 0) message may still be a retransmission of an earlier
+                    // flight (handled as a duplicate below) but must never advance
+                    // or fail the handshake.
+                    if !authenticated
+                        && ctx.session_keys.is_some()
+                        && msg.message_seq >= ctx.recv_message_seq
+                    {
+                        debug!(
+                            "Ignoring plaintext handshake message {:?} (seq {}) after key negotiation",
+                            msg.msg_type, msg.message_seq
+                        );
+                        continue;
+                    }
 
                     if msg.message_seq < ctx.recv_message_seq {
                         // If we just processed a HelloVerifyRequest, the server may
